@@ -484,14 +484,15 @@ Definition wf_cfg_b (cfg : config) : bool := (0 <? c_j cfg) && (0 <? c_k cfg).
 (* ------------------------------------------------------------------ trace completion helper *)
 (* Starts of PHONY edges leave no event in the implementation's trace (StartEdge returns at once and
    the command runner is not involved).  The acceptance tool therefore searches the accepted
-   completion: starting from [s], start ready phony edges that belong to [allowed], greedily, and
-   return the [EvStart] events found.  (Soundness: [auto_phony_accepts] in PlanProofs.v.) *)
+   completion: starting from [s], start ready phony edges that belong to [allowed] (the first such
+   edge in the order of [allowed], so the caller controls the order), greedily, and return the
+   [EvStart] events found.  (Soundness: [auto_phony_accepts] in PlanProofs.v.) *)
 Fixpoint auto_phony (fuel : nat) (g : graph) (cfg : config) (prio allowed : list nat) (s : state)
   : list event * state :=
   match fuel with
   | O => ([], s)
   | S fuel' =>
-    match filter (fun e => phony g e && memb e allowed) (p_ready (s_plan s)) with
+    match filter (fun e => phony g e && memb e (p_ready (s_plan s))) allowed with
     | [] => ([], s)
     | e :: _ =>
       match step g cfg s (EvStart e prio) with
